@@ -4,9 +4,11 @@
 #![allow(clippy::type_complexity)]
 #![allow(dead_code)]
 
+mod alloc;
 mod cer;
 mod ceremony;
 mod core;
+mod hostile;
 mod model;
 mod props;
 mod rt;
@@ -14,6 +16,9 @@ mod rt;
 use std::cell::RefCell;
 
 use crate::core::{Ctx, Tier};
+
+#[global_allocator]
+static GLOBAL: alloc::Counting = alloc::Counting;
 
 thread_local! {
     pub static LAST_PANIC: RefCell<String> = const { RefCell::new(String::new()) };
